@@ -29,6 +29,13 @@ def run(ctx):
         outs_h.append(o)
         jobs.append(dict(module="MC_C01", name="MC_C01_" + name, view="View", workers=8, timeout=3300,
                          constants=dict(consts, Seed=ctx.seed, OutFile=core.tla_str(o)), invariants=("TypeOK",), properties=("SumPure",)))
+    # long streams: the suffix of a stream of 2^29 / 2^32 / 2^45 / 2^60 bytes, entered through the length field of the exported state
+    o = "%s.big" % out_h
+    outs_h.append(o)
+    jobs.append(dict(module="MC_C01big", name="MC_C01big", workers=6, timeout=1800, invariants=("TypeOK",),
+                     constants=dict(Seed=ctx.seed, N1=S([0, 1, 55, 56, 63, 64, 65] if ctx.tier == "quick" else list(range(0, 66)) + [127, 128, 129]),
+                                    N2=S([0, 1, 8, 9, 56, 64, 65, 128] if ctx.tier == "quick" else list(range(0, 66)) + [127, 128, 129, 192]),
+                                    DeltaIds=S([1, 2, 3, 4, 5, 6]), OutFile=core.tla_str(o))))
     if ctx.tier == "quick":
         # every block count 1..17 of the output (each remainder of the 4- and 8-lane batches on both SIMD tiers) on a few alignments of z
         o = "%s.blocks" % out_k
@@ -82,6 +89,6 @@ def run(ctx):
             return ("kdf", s["via"], len(s["z"]) // 2, s["n"])
         return ("hash",) + tuple((s["op"], s.get("o"), len(s.get("data", "")) // 2) for s in t["steps"][1:])
     ctx.count_distinct(allt, key)
-    ctx.assumptions += ["messages up to ~400 bytes (hash histories) / 1025 bytes (one-shot); bit-length carries beyond 2^32 are not explored",
+    ctx.assumptions += ["messages up to ~400 bytes (hash histories) / 1025 bytes (one-shot); stream positions beyond 2^29, 2^32, 2^45 and 2^60 bytes are entered through the byte count of an exported state (MC_C01big: the digest of the suffix given chaining value, tail and total length), not by hashing that much data",
                         "chunk contents are pseudo-random; chunk lengths, operation sequences, (len z, keyLen) pairs are enumerated"]
     return ctx.finish(rule="one case per TLC transition: hash histories over Write/Sum/Reset/Marshal/Unmarshal with seam lengths on two objects, one-shot lengths, (len z, keyLen, entry point) KDF requests; each replayed on 5 SM3 tiers; distinct = distinct operation/length tuples")
